@@ -44,18 +44,71 @@ def src_hash() -> str:
     return h.hexdigest()[:16]
 
 
+def _numba_cache(hsh: str) -> Path:
+    """A JIT cache private to this process, seeded from / published to a shared snapshot.
+
+    numba's on-disk cache is not safe against two processes compiling the same functions at the same time (the cached
+    gufunc wrappers name the inner function by a per-process counter, so interleaved writes leave a cache that aborts
+    every later process with 'LLVM ERROR: Symbol not found'; seen when four checks started on a cold cache).  No two
+    processes ever write to the same directory here: a run copies the snapshot (if any) under a shared lock, compiles
+    into its own copy, and at exit replaces the snapshot by its copy under an exclusive lock if it has more entries."""
+    import atexit
+    import shutil
+
+    root = CACHE / "numba" / hsh
+    root.mkdir(parents=True, exist_ok=True)
+    golden = root / "snapshot"
+    mine = root / f"run-{os.getpid()}-{int(time.time() * 1e6) & 0xFFFFFF:x}"
+    lock = root / "lock"
+
+    def count(d: Path) -> int:
+        return sum(1 for _ in d.rglob("*.nb?")) if d.exists() else 0
+
+    with open(lock, "w") as lk:
+        fcntl.flock(lk, fcntl.LOCK_SH)
+        if golden.exists() and not os.environ.get("VERIF_NUMBA_FRESH"):
+            shutil.copytree(golden, mine, copy_function=shutil.copy2)
+        else:
+            mine.mkdir()
+    seeded = count(mine)
+
+    def publish():
+        try:
+            with open(lock, "w") as lk:
+                fcntl.flock(lk, fcntl.LOCK_EX)
+                if count(mine) > max(seeded, count(golden)):
+                    old = root / f"old-{os.getpid()}"
+                    if golden.exists():
+                        golden.rename(old)
+                    mine.rename(golden)
+                    shutil.rmtree(old, ignore_errors=True)
+                else:
+                    shutil.rmtree(mine, ignore_errors=True)
+        except OSError:
+            shutil.rmtree(mine, ignore_errors=True)
+
+    atexit.register(publish)
+    # leftovers of runs that were killed
+    for d in root.glob("run-*"):
+        try:
+            if d != mine and time.time() - d.stat().st_mtime > 6 * 3600:
+                shutil.rmtree(d, ignore_errors=True)
+        except OSError:
+            pass
+    return mine
+
+
 def setup_env():
     """Must be called before importing numba/arim."""
     os.environ[GUARD] = "1"
     hsh = src_hash()
-    nb = CACHE / "numba" / hsh
-    nb.mkdir(parents=True, exist_ok=True)
+    nb = _numba_cache(hsh)
     os.environ["NUMBA_CACHE_DIR"] = str(nb)
     # drop stale JIT caches of older source states (keep the 3 most recent)
     try:
         olds = sorted((CACHE / "numba").iterdir(), key=lambda p: p.stat().st_mtime)
         for p in olds[:-3]:
-            if p != nb:
+            if p != nb.parent:
                 subprocess.run(["rm", "-rf", str(p)])
     except OSError:
         pass
